@@ -6,7 +6,9 @@ from engine import kinds
 from engine.facts import Site, Slicer, norm, operand_local, control_deps, last_field
 
 CRATES = {"shuttle_engine", "shuttle_std", "shuttle", "shuttle_schedulers", "shuttle_tokio_impl_inner"}
-CONFIGS_THOROUGH = ["vc", "annotation"]
+# the `annotation` feature does not type-check at the pinned commit (E0308 in shuttle-engine/src/annotations/mod.rs, untouched by any fix), so that
+# configuration cannot be extracted; `plain` (no vector clocks) is the second configuration instead
+CONFIGS_THOROUGH = ["vc", "plain"]
 EXPLANATION = (
     "Static decision of structural clauses of C14. (R1) every static / thread_local / scoped_thread_local item with interior "
     "mutability in the engine, std, shuttle, schedulers and tokio-time crates is enumerated from the type-checked program "
